@@ -83,6 +83,14 @@ def check_model_src(src):
     if ua > 0 and ub > 0:
         r = core.get_correlation(ya, yb)
         if abs(r) > 1 + 1e-9: problems.append(('|corr|>1', r))
+        if abs(r - c1 / (ua * ub)) > 1e-9: problems.append(('corr != cov/(ua ub)', r, c1 / (ua * ub)))
+    # an elementary number against a result, both argument orders
+    for l in leaves:
+        ex = lpu_exact(l, ya, leaves)
+        sl = float(abs(Fraction(float(l.u)))) * math.sqrt(scale) + 1e-300
+        g1, g2 = core.get_covariance(l, ya), core.get_covariance(ya, l)
+        if abs(Fraction(g1) - ex) > 1e-9 * sl or abs(Fraction(g2) - ex) > 1e-9 * sl:
+            problems.append(('cov(elementary,result)', g1, g2, float(ex)))
     return problems
 
 def search(rng, tier, broken):
